@@ -30,18 +30,18 @@ not in the offset table (`a ≥ n` or `b > n`) or the byte range is reversed. -/
 def sliceGs (gs : List Gr) (a b : Nat) : Option Str :=
   if a < gs.length ∧ b ≤ gs.length ∧ a ≤ b then some (((gs.drop a).take (b - a)).flatten) else none
 
-/-- `selected_content()`. `none` = the `?` inside it fired (the caller `unwrap()`s: a panic). -/
+/-- `selected_content()`. `none` = the `?` inside it fired (the caller takes the empty field then). -/
 def selectedContent (gs : List Gr) (mode : Option SelMode) (range : SelRange) : Option Str :=
   match range with
   | .oneDim s e =>
     match mode with
-    | some (.char _) => sliceGs gs s (e + 1)
+    | some (.char _) => sliceGs gs s (min (e + 1) gs.length)   -- the end is clamped to the text
     | some (.line _) => sliceGs gs s e
     | _ => none
   | .twoDim ws => some (joinWith ['\n'] (ws.filterMap (fun w => sliceGs gs w.1 w.2)))
 
 inductive FieldErr where
-  | panic      -- `selected_content().unwrap()` on `None`
+  | panic      -- (before the fix: `selected_content().unwrap()` on `None`; no longer produced)
   | sliceFailed  -- "Failed to slice buffer"
   deriving Repr, BEq, DecidableEq
 
@@ -51,7 +51,7 @@ def fieldOf (gs : List Gr) (c0 c1 : Nat) (mode : Option SelMode) (range : Option
   | some r =>
     match selectedContent gs mode r with
     | some s => .ok s
-    | none => .error .panic
+    | none => .ok []            -- `unwrap_or_default()`
   | none =>
     if gs.isEmpty then .ok []
     else
